@@ -4,6 +4,9 @@ import SspModel.Model.Eject
 import SspModel.Model.Kicks
 import SspModel.Model.IMF
 import SspModel.Model.Bins
+import SspModel.Model.Sev
+import SspModel.Model.Esc
+import SspModel.Model.IFMR
 /-!
 # Line-protocol driver: one op per line in, one line out. Doubles cross as 16-hex-digit bit patterns.
 Runs the *same* model terms the theorems are about, at the `Float` instance.
@@ -41,6 +44,35 @@ def takeList (ws : List String) : List Float × List String :=
   match ws with
   | n :: rest => let k := n.toNat!; ((rest.take k).map parseHex, rest.drop k)
   | [] => ([], [])
+
+/-- `<wdHi> <bhLo> <nsMass> <wd coeffs (len-prefixed, lowest first)> table <len-prefixed flat knots> | line e s c | broken <len-prefixed flat pieces>` -/
+def parseIfmr (ws : List String) : IfmrFn Float × List String :=
+  match ws with
+  | wdHi :: bhLo :: ns :: rest =>
+    let (wc, r1) := takeList rest
+    match r1 with
+    | "table" :: r2 =>
+      let (flat, r3) := takeList r2
+      let knots := pairs flat
+      (⟨parseHex wdHi, parseHex bhLo, parseHex ns, polyEval wc, linInterp knots⟩, r3)
+    | "line" :: e :: sl :: sc :: r3 =>
+      (⟨parseHex wdHi, parseHex bhLo, parseHex ns, polyEval wc, lineFn (parseHex e) (parseHex sl) (parseHex sc)⟩, r3)
+    | "broken" :: r2 =>
+      let (flat, r3) := takeList r2
+      let rec pcs : List Float → List (Float × Float × Float × Float × Float)
+        | lo :: hi :: e :: sl :: sc :: t => (lo, hi, e, sl, sc) :: pcs t
+        | _ => []
+      let P := pcs flat
+      (⟨parseHex wdHi, parseHex bhLo, parseHex ns, polyEval wc, fun m => (brokenFn P m).getD (0.0 / 0.0)⟩, r3)
+    | _ => (⟨0, 0, 0, fun _ => 0, fun _ => 0⟩, [])
+  | _ => (⟨0, 0, 0, fun _ => 0, fun _ => 0⟩, [])
+
+def clsName : RemClass → String
+  | .WD => "WD" | .NS => "NS" | .BH => "BH"
+
+def starBins : List Float → List (StarBin Float)
+  | n :: a :: lo :: hi :: t => ⟨n, a, lo, hi⟩ :: starBins t
+  | _ => []
 
 def step (ws : List String) : String :=
   match ws with
@@ -111,6 +143,40 @@ def step (ws : List String) : String :=
     | .error .above => "err above"
   | "turnoff" :: m :: rest =>
     pairsOut (turnedOffBins (pairs (rest.map parseHex)) (if m == "inf" then none else some (parseHex m)))
+  | "predict" :: m :: rest =>
+    let (f, _) := parseIfmr rest
+    s!"{clsName (predictType f (parseHex m))} {toHex (predict f (parseHex m))}"
+  | "polyeval" :: x :: rest => toHex (polyEval (rest.map parseHex) (parseHex x))
+  | "lininterp" :: x :: rest => toHex (linInterp (pairs (rest.map parseHex)) (parseHex x))
+  | "sev" :: t :: rest =>
+    let (Ns, r1) := takeList rest
+    let (al, r2) := takeList r1
+    let (ms, r3) := takeList r2
+    let (tmsU, r4) := takeList r3
+    match r4 with
+    | a0 :: a1 :: a2 :: nmin :: fwd :: fns :: fbh :: r5 =>
+      let (wd, r6) := takeList r5
+      let (ns, r7) := takeList r6
+      let (bh, r8) := takeList r7
+      let (f, _) := parseIfmr r8
+      let c : SevCfg Float := ⟨pairs ms, tmsU, parseHex a0, parseHex a1, parseHex a2, parseHex nmin,
+        parseHex fwd, parseHex fns, parseHex fbh, pairs wd, pairs ns, pairs bh, f⟩
+      match derivsSev c (parseHex t) Ns al with
+      | .ok o =>
+        let i := match o.isev with | some i => toString i | none => "-"
+        let r := match o.rem with
+          | some (cls, ir, dN, dM) => s!"{clsName cls} {ir} {toHex dN} {toHex dM}"
+          | none => "-"
+        s!"ok {i} {toHex o.dNs} {o.defined} {r}"
+      | .error .below => "err below"
+      | .error .above => "err above"
+    | _ => "bad-op"
+  | "esc" :: normM :: t :: tcc :: rate :: md :: rest =>
+    let (sf, r1) := takeList rest
+    let (rf, _) := takeList r1
+    let (dNs, dal, drem) := derivsEsc (normM == "M") (parseHex t) (parseHex tcc) (parseHex rate) (parseHex md)
+      (starBins sf) (pairs rf)
+    s!"{fl dNs} | {fl dal} | {pairsOut drem}"
   | ["mrem", d, mb, mt] => toHex (Mrem (parseHex d) (parseHex mb) (parseHex mt))
   | ["sigmoid", slope, scale, m] => toHex (sigmoidRet (parseHex slope) (parseHex scale) (parseHex m))
   | ["erf", x] => toHex (Scalar.erf (parseHex x))
